@@ -194,6 +194,13 @@ def build_spec_graphs(case, G):
         elif mode == 'fn':
             attrs['rate_function'] = (lambda G_, source, target: 0.25 + ((pos[source] + 2 * pos[target]) % 4) / 2.0)
         J.add_edge((a, b), (a, c), **attrs)
+    if case.get('zero_rate_edges'):
+        # transitions switched off in a parameter sweep: declared with rate 0, they can never fire
+        a, b = statuses[-1], statuses[0]
+        if not H.has_edge(a, b):
+            H.add_edge(a, b, rate=0)
+        if not J.has_edge((a, b), (a, a)) and a != b:
+            J.add_edge((a, b), (a, a), rate=0)
     return H, J
 
 
@@ -411,6 +418,8 @@ def sim_case(draw, sims=SIMS, nmax=25, labels=('int', 'perm', 'str', 'tuple'), f
         case['omit_defaults'] = True
     if draw(st.integers(0, 7)) == 0:
         case['as_view'] = True
+    if sim == 'Gillespie_simple_contagion' and draw(st.integers(0, 3)) == 0:
+        case['zero_rate_edges'] = True
     if kind == 'generic' and n >= 3 and draw(st.integers(0, 4)) == 0:
         case['bystanders'] = sorted(set(draw(st.integers(0, n - 1)) for _ in range(draw(st.integers(1, 2)))))
     if draw(st.integers(0, 4)) == 0:
